@@ -226,13 +226,14 @@ Record dhcp_env := mkDhcpEnv {
   de_info : bool
 }.
 
-(* EncodeDHCP4(p, ...) (layer_dhcp4.go:355) re-uses the request buffer up to its CAPACITY:
-   cap < 300 -> nil; header fields below 240 are rewritten; AppendOptions copies what fits
-   into p[240:cap] and returns the UNtruncated option length pos; then p[240+pos] = End *)
+(* EncodeDHCP4(p, ...) (layer_dhcp4.go:355, as repaired by 720d31a) re-uses the request buffer
+   up to its CAPACITY: cap < 300 -> nil; header fields below 240 are rewritten; AppendOptions
+   copies what fits into p[240:cap] and returns the untruncated option length pos;
+   n = 240+pos >= cap -> nil; otherwise p[n] = End (idx on the slice extended to its capacity) *)
 Definition encode_dhcp4_into (p : slice) (pos : nat) : res unit :=
   if Nat.ltb (cap p) 300 then Ok tt
-  else if Nat.ltb (240 + pos) (cap p) then Ok tt
-  else Panic.
+  else if Nat.leb (cap p) (240 + pos) then Ok tt
+  else (_ <- idx (mkSlice (arr p) (cap p)) (240 + pos) ;; Ok tt)%res.
 
 Definition client_id (p : slice) : res bytes :=
   match dhcp_opt p 61 with
@@ -269,15 +270,3 @@ Definition dhcp4_process (fuel : nat) (e : dhcp_env) (p : slice) : res unit :=
    | _ => Err EParseFrame
    end)%res.
 
-(* known class: the reply is encoded into the request buffer and does not fit its capacity *)
-Definition dhcp_reply_pos (e : dhcp_env) (p : slice) : option nat :=
-  match de_reply e with
-  | RNone => None
-  | RNak => match client_id p with Ok cid => Some (3 + 6 + (2 + List.length cid))%nat | _ => None end
-  | ROther pos => Some pos
-  end.
-Definition known_C08_dhcp_reply_overrun (e : dhcp_env) (p : slice) : bool :=
-  match dhcp_reply_pos e p with
-  | Some pos => Nat.leb 300 (cap p) && Nat.leb (cap p) (240 + pos)
-  | None => false
-  end.
